@@ -554,6 +554,14 @@ func (v *PolicyVerifier) VerifyRelativeForRef(ctx context.Context, firstEntry, l
 						slog.Debug("Setting current policy...")
 					}
 
+					// The root of trust check above does not cover the rule
+					// files, verify the new policy's metadata before it takes
+					// effect for the entries that follow
+					slog.Debug("Validating new policy's state...")
+					if err := newPolicy.Verify(ctx); err != nil {
+						return fmt.Errorf("policy state has invalidly signed metadata: %w", err)
+					}
+
 					currentPolicy = newPolicy
 
 					if v.persistentCacheEnabled {
